@@ -192,6 +192,11 @@ type kinVerdict struct {
 	Checked bool
 	OK      bool
 	Err     string
+	// what the document says about the request BODY alone, asked when the verdict on the whole
+	// request is an objection to a parameter (the validator stops at the first objection)
+	BodyChecked bool
+	BodyOK      bool
+	BodyErr     string
 }
 
 func (kc *kinCache) validate(it *built, si *stepInfo, ob *rt.Obs) (reqV, respV kinVerdict, kd *kinDoc) {
@@ -226,6 +231,23 @@ func (kc *kinCache) validate(it *built, si *stepInfo, ob *rt.Obs) (reqV, respV k
 	reqV = kinVerdict{Checked: true, OK: err == nil}
 	if err != nil {
 		reqV.Err = firstLine(err.Error())
+		if strings.HasPrefix(reqV.Err, "parameter ") && op.RequestBody != nil && op.RequestBody.Value != nil {
+			if breq := wireRequest(ob.Req); breq != nil {
+				bin := &openapi3filter.RequestValidationInput{Request: breq, PathParams: pp, Route: route, Options: in.Options}
+				berr := func() (err error) {
+					defer func() {
+						if r := recover(); r != nil {
+							err = fmt.Errorf("validator panic: %v", r)
+						}
+					}()
+					return openapi3filter.ValidateRequestBody(context.Background(), bin, op.RequestBody.Value)
+				}()
+				reqV.BodyChecked, reqV.BodyOK = true, berr == nil
+				if berr != nil {
+					reqV.BodyErr = firstLine(berr.Error())
+				}
+			}
+		}
 	}
 	if ob.Resp != nil {
 		rin := &openapi3filter.ResponseValidationInput{RequestValidationInput: in, Status: ob.Resp.Status, Header: http.Header(ob.Resp.Headers),
@@ -313,6 +335,11 @@ func checkC14(res *vh.Result, kc *kinCache, it *built, si *stepInfo, ob *rt.Obs,
 			failSig(res, classifyC14(it, si, ob, false, ""), fmt.Sprintf("the documented schemas allow a request the server rejects with %d %s (%s at %s)", status(ob), errName(ob), si.Desc, si.Site), in)
 		default:
 			res.Sample(map[string]any{"method": si.Method, "mutation": si.Desc, "server_accepts": serverAccepts, "schema_accepts": reqV.OK, "wire": ob.Req}, 3)
+		}
+		// an objection to a parameter (possibly a recorded finding) must not hide what the document says about the body
+		if serverAccepts && !reqV.OK && reqV.BodyChecked && !reqV.BodyOK {
+			res.Count("request_body_judged_behind_parameter_objection")
+			failSig(res, classifyC14(it, si, ob, true, reqV.BodyErr), fmt.Sprintf("the server accepted a request whose body the documented schema forbids (%s at %s): %s", si.Desc, si.Site, reqV.BodyErr), in)
 		}
 	}
 	// responses: every success / declared-error response produced for a result that satisfies the design
